@@ -66,7 +66,7 @@ MUTANTS = [
     ("m18c", "C18", "caught", "numbat/src/list.rs",
      "            Ok(mut solely_owned) => solely_owned.swap_remove_front(front),", "            Ok(mut solely_owned) => solely_owned.swap_remove_front(0),",
      "head of a solely owned view returns the element of the dead slot 0"),
-    ("m18d", "C18", "caught", "numbat/src/list.rs",
+    ("m18d", "C18", "benign", "numbat/src/list.rs",
      "        if Arc::ptr_eq(&self.alloc, &other.alloc) && self.view == other.view {", "        if Arc::ptr_eq(&self.alloc, &other.alloc) {",
      "equality short-cut ignores the view"),
     ("m18e", "C18", "benign", "numbat/src/list.rs",
